@@ -204,11 +204,11 @@ def _zone_ids(tier, seed):
     ids = sorted(DateTimeZoneProviders.tzdb.ids)
     if tier == "thorough":
         return ids
-    k = 8
+    k = 6
     return [ids[(seed * 131 + i * 73) % len(ids)] for i in range(k)]
 
 
-@lemma({"d": int, "n": int}, params=_zone_ids, budget=250, thorough_budget=300, per_path=30,
+@lemma({"d": int, "n": int}, params=_zone_ids, budget=150, thorough_budget=400, per_path=30,
        bounds="a real zone of the bundled database x every instant before its tail start (or all of time for tail-less zones): the interval "
               "returned contains the instant (binary search over the zone's concrete period table); adjacent stored periods abut, differ in "
               "name or offsets, and wall = standard + savings within the zone's advertised min/max (finite facts checked concretely first)")
